@@ -83,6 +83,7 @@ fn start_db(
     } else {
         log::warn!("Nun-db has restarted with op-log in a invalid state, oplog and keys metadafile will be deleted!");
         disk_ops::Oplog::clean_op_log_metadata_files();
+        disk_ops::mark_op_log_as_invalid_on_disk().unwrap();
     }
 
     let dbs = nundb::db_ops::create_init_dbs(
